@@ -67,13 +67,18 @@ class OrigDechunkedInput(io.RawIOBase):
                 # grow beyond the original size and read more data than
                 # required. So only read as much data as can fit in buf.
                 if read + n > len(buf):
-                    buf[read:] = self._rfile.read(len(buf) - read)
-                    self._len -= len(buf) - read
-                    read = len(buf)
-                else:
-                    buf[read : read + n] = self._rfile.read(n)
-                    self._len -= n
-                    read += n
+                    n = len(buf) - read
+
+                data = self._rfile.read(n)
+
+                # A short read means the stream ended inside the chunk. Don't
+                # splice it into buf, that would resize the caller's buffer.
+                if len(data) != n:
+                    raise OSError("Unexpected end of chunked data")
+
+                buf[read : read + n] = data
+                self._len -= n
+                read += n
 
             if self._len == 0:
                 # Skip the terminating newline of a chunk that has been fully
